@@ -236,8 +236,9 @@ def main(tier):
         runs = [(2, 99, [((a,), (b,)) for a in singles for b in singles] + [((7, 2), (1,)), ((2,), (8, 1)), ((1, 2), (2, 1))]),
                 (2, 3, [((9,), (10,)), ((10,), (9,)), ((9,), (2,)), ((10, 9), (9,))])]
     else:
-        singles = list(range(1, n + 1))
+        singles = list(range(1, 7))       # single-token patterns: every interleaving
         runs = [(2, 99, [((a,), (b,)) for a in singles for b in singles]),
+                (2, 3, [((a,), (b,)) for a in (7, 8, 9, 10) for b in range(1, n + 1)] + [((a,), (b,)) for a in range(1, 7) for b in (7, 8, 9, 10)]),
                 (2, 4, [((a, b), (c, d)) for a in (1, 2, 3) for b in (2, 6) for c in (2, 3, 7) for d in (1, 3)]),
                 (3, 5, [((a,), (b,), (c,)) for a in (1, 2, 3, 4) for b in (2, 3, 5) for c in (1, 2, 6)])]
     tmpd = tempfile.mkdtemp(prefix='verif_c14_')
